@@ -80,9 +80,18 @@ func TestC07(t *testing.T) {
 			end = start
 		}
 		nd := rapid.IntRange(1, 3).Draw(t, "nDenoms")
+		denoms := c07Denoms
+		if rapid.IntRange(0, 11).Draw(t, "manyDenoms") == 0 {
+			// one case in twelve: the account vests dozens of denominations (names that sort before, between and after the usual three)
+			nd = rapid.IntRange(33, 48).Draw(t, "nDenomsMany")
+			denoms = append([]string{}, c07Denoms...)
+			for i := 3; i < nd; i++ {
+				denoms = append(denoms, fmt.Sprintf("%s%02d", []string{"aa", "ibd", "ub", "uc4", "uc4f", "zz"}[i%6], i))
+			}
+		}
 		ov := sdk.NewCoins()
 		for i := 0; i < nd; i++ {
-			ov = ov.Add(sdk.NewCoin(c07Denoms[i], sdk.NewIntFromBigInt(genOV(t, fmt.Sprintf("ov%d", i)))))
+			ov = ov.Add(sdk.NewCoin(denoms[i], sdk.NewIntFromBigInt(genOV(t, fmt.Sprintf("ov%d", i)))))
 		}
 		extra := sdk.NewCoins()
 		if rapid.Bool().Draw(t, "hasExtra") {
@@ -372,6 +381,9 @@ func TestC07(t *testing.T) {
 		}
 		if nd > 1 {
 			classes["multi_denom"] = true
+		}
+		if nd > 32 {
+			classes["more_than_32_denominations"] = true
 		}
 		st.Case(nontrivial, map[string]interface{}{"history": hist}, append(classList(classes), v.TxClasses()...)...)
 	})
